@@ -174,6 +174,11 @@ impl Run {
         let mut known_hit: BTreeMap<String, (String, u64)> = BTreeMap::new();
         let mut seen_sig: HashSet<String> = HashSet::new();
         let total_viol = self.acc.violations.len();
+        let mut classes: BTreeMap<String, u64> = BTreeMap::new();
+        for v in &self.acc.violations {
+            let cls: Vec<&str> = v.signature.split('|').take(2).collect();
+            *classes.entry(cls.join("|")).or_insert(0) += 1;
+        }
         for v in std::mem::take(&mut self.acc.violations) {
             if let Some(k) = known.iter().find(|k| k.property == self.prop && k.signature == v.signature) {
                 let e = known_hit.entry(k.signature.clone()).or_insert((k.what.clone(), 0));
@@ -181,6 +186,22 @@ impl Run {
             } else if seen_sig.insert(v.signature.clone()) {
                 new_viol.push(v);
             }
+        }
+        // replay files should cover as many distinct violation classes as possible
+        {
+            let mut seen_cls: HashSet<String> = HashSet::new();
+            let mut firsts = Vec::new();
+            let mut rest = Vec::new();
+            for v in new_viol.drain(..) {
+                let cls: String = v.signature.split('|').take(2).collect::<Vec<_>>().join("|");
+                if seen_cls.insert(cls) {
+                    firsts.push(v);
+                } else {
+                    rest.push(v);
+                }
+            }
+            firsts.extend(rest);
+            new_viol = firsts;
         }
         let _ = std::fs::create_dir_all("/verif/evidence");
         let _ = std::fs::create_dir_all("/verif/replays");
@@ -207,6 +228,10 @@ impl Run {
         }
         if !known_hit.is_empty() {
             coverage.insert("known_findings_observed".into(), json!(known_hit.iter().map(|(s, (w, n))| json!({"signature": s, "what": w, "times": n})).collect::<Vec<_>>()));
+        }
+        if !classes.is_empty() {
+            coverage.insert("violation_classes".into(), json!(classes));
+            println!("violation classes (raw): {:?}", classes);
         }
         if !new_viol.is_empty() {
             coverage.insert("violation_summaries".into(), json!(new_viol.iter().take(20).map(|v| json!({"signature": v.signature, "what": v.what})).collect::<Vec<_>>()));
